@@ -348,6 +348,10 @@ def build(prop, tier="quick"):
                             True, "%d registrations scanned: %s" % (len(regs_seen), ", ".join("%s/%s->%s(%s)" % (r.concept, r.name, r.cname, r.kind) for r in regs_seen))))
     if missing:
         raise ExtractionBreak("expected registrations not found: %r" % sorted(missing))
+    if tier == "thorough":
+        rc, cases, err = _run_probe(["search", ""], timeout=3000)
+        kb.static_facts.append(("native battery (thorough tier): every container operation of probe_stl.cpp agrees with the std model on the real engine under ASan",
+                                rc == 0 and not cases, (err.strip() + " " + str(cases[:3]))[:400]))
     kb.assumptions += [
         "std sequence containers are modelled by verif_stl.h's vseq/viter (length, ghost capacity, ghost record of the last structural operation; "
         "elements opaque): each stub carries the standard's precondition as a class [S] assertion and the standard's effect on the length - "
